@@ -98,6 +98,9 @@ func Minimise(p *vm.Plan, key, sig string, run Runner, budget int) (*vm.Plan, in
 }
 
 func (s *state) shrinkOp(oi int) {
+	if s.best.Ops[oi].Name != "" {
+		return // twin / replica operations must keep identical inputs
+	}
 	// mutations
 	for i := len(s.best.Ops[oi].Muts) - 1; i >= 0 && len(s.best.Ops[oi].Muts) > 1; i-- {
 		c := s.best.Clone()
